@@ -1129,3 +1129,56 @@ def box_into_vec(ex, args):
 
 @model(r'<.* as Drop>::drop|(?:std::ptr::|core::ptr::)?drop_in_place::<.*>|(?:alloc::alloc::|std::alloc::)?(?:box_free|dealloc)(?:::<.*>)?')
 def drop_glue(ex, args): return UNIT
+
+
+def _cmp_vals(ex, a, b):
+    """-1/0/1 for ints and concrete strings"""
+    a = deref(a); b = deref(b)
+    if isinstance(a, StrV) and isinstance(b, StrV):
+        x, y = a.concrete(), b.concrete()
+        if x is None or y is None: raise Unsupported('ordering of symbolic strings')
+        xb, yb = x.encode('utf-8'), y.encode('utf-8')
+        return (xb > yb) - (xb < yb)
+    if isinstance(a, int) and isinstance(b, int): return (a > b) - (a < b)
+    raise Unsupported('ordering of ' + type(a).__name__)
+
+
+@model(r'(?:core::slice::|std::slice::)?<impl \[.*\]>::(sort|sort_unstable)')
+def slice_sort(ex, args, m):
+    import functools
+    s = as_slice(args[0]); items = s.elems()
+    items.sort(key=functools.cmp_to_key(lambda a, b: _cmp_vals(ex, a, b)))
+    s.vec.items[s.lo:s.hi] = items
+    return UNIT
+
+
+@model(r'(?:core::slice::|std::slice::)?<impl \[.*\]>::binary_search')
+def slice_binary_search(ex, args):
+    """the real algorithm (std's), so that an unsorted slice gives std's answer"""
+    s = as_slice(args[0]); items = s.elems(); x = args[1]
+    size = len(items)
+    if size == 0: return err(0)
+    base = 0
+    while size > 1:
+        half = size // 2; mid = base + half
+        c = _cmp_vals(ex, items[mid], x)
+        base = base if c > 0 else mid
+        size -= half
+    c = _cmp_vals(ex, items[base], x)
+    if c == 0: return ok(base)
+    return err(base + (1 if c < 0 else 0))
+
+
+@model(r'<(?:std::vec::)?Vec<.*> as (?:std::ops::)?DerefMut>::deref_mut')
+def vec_deref_mut(ex, args):
+    v = vec_of(args[0]); return SliceV(v, 0, len(v.items))
+
+
+@model(r'(?:core::slice::|std::slice::)?<impl \[.*\]>::(get|get_mut)::<usize>')
+def slice_get(ex, args, m):
+    s = as_slice(args[0]); i = args[1]; n = len(s)
+    if is_sym(i):
+        if not ex.decide(z3.And(i >= 0, i < n)): return none()
+        i = ex.concretize(i, 0, n - 1)
+    elif not (0 <= i < n): return none()
+    return some(Ref(s.vec.items, s.lo + i))
